@@ -355,3 +355,5 @@ PROPS["C09"]["needs_gotest"] = True
 PROPS["C19"]["theorems"] = PROPS["C19"]["theorems"] + ["Toxi.Client.C19_populate_decodes", "Toxi.Client.C19_populate_is_api"]
 # the registry of a proxy's sockets (C03_all_closed over the lifecycle model with linkEnd; tie_registry)
 PROPS["C03"]["theorems"] = PROPS["C03"]["theorems"] + ["Toxi.Proxy.C03_all_closed", "Toxi.Proxy.ever_step", "Toxi.Ties.tie_registry"]
+# C13 on real sockets: reset_peer ends the connection with a TCP reset at both peers (E6)
+PROPS["C13"]["engines"] = PROPS["C13"]["engines"] + [{"engine": "e6", "args": ["-props", "C13"], "tag": "C13sock"}]
